@@ -4,6 +4,7 @@ import (
 	"fmt"
 	"go/types"
 	"strings"
+	"time"
 
 	"golang.org/x/tools/go/ssa"
 )
@@ -301,6 +302,19 @@ func intrinsicTable() map[string]intrinsic {
 		m.ufInv[fn] = gn
 		m.ufInv[gn] = fn
 		return done(nil)
+	}
+	T[zz+"RealZone"] = func(m *Machine, th *Thread, fr *Frame, f FuncV, a []Value) (Value, invStatus) {
+		// a *time.Location of the program that stands for a zone of the real tz database: calendar operations on
+		// CONCRETE instants carrying it are evaluated with the real time package in that zone
+		name := m.argStr(a[0])
+		z, err := time.LoadLocation(name)
+		if err != nil {
+			panic(unsupported("zzverif.RealZone: " + err.Error()))
+		}
+		lt := f.fn.Signature.Results().At(0).Type().(*types.Pointer).Elem()
+		c := m.newCell(lt, m.curSite)
+		m.realZones[c] = z
+		return done(Ptr{c: c})
 	}
 	T[zz+"UFCollisionFree"] = func(m *Machine, th *Thread, fr *Frame, f FuncV, a []Value) (Value, invStatus) {
 		// cryptographic idealisation: two applications of this function with different arguments (contents or
